@@ -34,7 +34,7 @@ func init() {
 		ID:    "C16.map",
 		Props: []string{"C16", "C17", "C12"},
 		Doc:   "member-wise operations on a GeometryCollection: in every GeometryCollection method that builds its result by filling a []Geometry by index, each stored element is the result of a Geometry-level method call on the member at the same index (so nested collections and every member type are handled by the dispatcher) — never the bare member under a type test, and never left unassigned",
-		Floor: 5,
+		Floor: 2,
 		Run:   runC16Map,
 	})
 	register(&Rule{
@@ -389,8 +389,8 @@ func runC16Map(c *Ctx) {
 			c.Check(good, st.Pos(), fn, "member stored into the result list", "result of a Geometry-level method on the corresponding member", why+": nested collections / some member types are skipped or copied unchanged by this member-wise operation")
 		})
 	}
-	if n < 5 {
-		c.Errorf("only %d member-wise stores found in GeometryCollection methods", n)
+	if n < 2 {
+		c.Errorf("only %d member-wise stores found in GeometryCollection methods (today 5)", n)
 	}
 }
 
